@@ -138,6 +138,7 @@ void __sanitizer_on_print(const char *str) {
 /* C16: dependence on uninitialised stack shows as a result that changes with what happened to be there: optionally scribble the stack below
  * the call frame before every call (XDRV_STACKFILL=<byte>; the reference processes and the history processes use different bytes) */
 static int stackfill = -1;
+static int errno_preset = -1;      /* XDRV_ERRNO=<n>: errno is set to n before every call (a result must not depend on what an unrelated earlier failure left in errno) */
 static void __attribute__((noinline)) scribble_stack(int v) {
     volatile unsigned char buf[49152];
     for (size_t i = 0; i < sizeof buf; i++) buf[i] = (unsigned char)v;
@@ -146,11 +147,12 @@ static void __attribute__((noinline)) scribble_stack(int v) {
 
 /* ------------------------------------------------------------------ request state */
 col_t cols[XDRV_MAXCOL];
-char **pool; uint32_t npool;
+char **pool; uint32_t npool; static uint32_t *poollen;
 static Crystal_Struct **builtin; static int nbuiltin;
 Crystal_Struct *user_crystal[XDRV_MAXUSERCRYSTAL]; int nuser;
 
 const char *str_of(int i) { return (i < 0 || (uint32_t)i >= npool) ? NULL : pool[i]; }
+uint32_t strlen_of(int i) { return (i < 0 || (uint32_t)i >= npool || !pool[i]) ? 0 : poollen[i]; }     /* byte length as sent (strings may contain NUL bytes) */
 Crystal_Struct *crystal_of(int i) {
     if (i < 0) return NULL;
     if (i < 1000) return i < nbuiltin ? builtin[i] : NULL;
@@ -192,6 +194,7 @@ int main(int argc, char **argv) {
     if (!proto) return 6;
     setvbuf(proto, NULL, _IOFBF, 1 << 20);
     if (getenv("XDRV_STACKFILL")) stackfill = atoi(getenv("XDRV_STACKFILL")) & 255;
+    if (getenv("XDRV_ERRNO")) errno_preset = atoi(getenv("XDRV_ERRNO"));
     const char *loc = getenv("XDRV_LOCALE");
     if (loc && *loc) { if (!setlocale(LC_ALL, loc)) { fprintf(stderr, "xdrv: cannot set locale %s\n", loc); return 5; } }
 #ifndef XDRV_SAN
@@ -219,11 +222,11 @@ int main(int argc, char **argv) {
             cols[c].i = cols[c].raw; cols[c].d = cols[c].raw;
         }
         for (uint32_t i = 0; i < npool; i++) free(pool[i]);
-        rd(&npool, 4); pool = realloc(pool, (npool + 1) * sizeof *pool);
+        rd(&npool, 4); pool = realloc(pool, (npool + 1) * sizeof *pool); poollen = realloc(poollen, (npool + 1) * sizeof *poollen);
         for (uint32_t i = 0; i < npool; i++) {
             uint32_t l; rd(&l, 4);
-            if (l == 0xFFFFFFFFu) { pool[i] = NULL; continue; }
-            pool[i] = malloc(l + 1); rd(pool[i], l); pool[i][l] = 0;
+            if (l == 0xFFFFFFFFu) { pool[i] = NULL; poollen[i] = 0; continue; }
+            pool[i] = malloc(l + 1); rd(pool[i], l); pool[i][l] = 0; poollen[i] = l;
         }
         rec_t *out = calloc(n ? n : 1, sizeof *out);
         bloblen = 0;
@@ -244,6 +247,7 @@ int main(int argc, char **argv) {
             uint64_t seq0 = trk_seq; long live0 = trk_live;
             if (stackfill >= 0) scribble_stack(stackfill);
             trk_window(); trk_on = 1;
+            if (errno_preset >= 0) errno = errno_preset;
             if (f) f->call(j, r, m == 1 ? NULL : &e);
             else op->call(j, r, m == 1 ? NULL : &e);
             if (m == 2) {
